@@ -91,6 +91,16 @@ func c11IsASCII(s string) bool {
 }
 
 // the AMP "basic algorithm" restated for ASCII domains without punycode labels (steps 1 and 5 are the identity)
+// c11SpecBasic: the five steps of the AMP cache URL format's basic algorithm, written down a second time over the
+// idna library (decode, double the hyphens, dots to hyphens, the 0-...-0 wrap, encode).
+func c11SpecBasic(d string) (string, error) {
+	u, err := idna.ToUnicode(d)
+	if err != nil {
+		return "", err
+	}
+	return idna.ToASCII(c11SpecBasicASCII(u))
+}
+
 func c11SpecBasicASCII(d string) string {
 	p := strings.ReplaceAll(d, "-", "--")
 	p = strings.ReplaceAll(p, ".", "-")
@@ -440,6 +450,9 @@ func TestVerifC11Amp(t *testing.T) {
 		// oracles
 		if strings.Contains(pfx, ".") || len(pfx) > 63 {
 			r.OracleFail("domain-prefix-not-a-label", pl, pfx, "the domain prefix must be a single dot-free label of at most 63 bytes")
+		}
+		if sb, serr := c11SpecBasic(d); (serr == nil) != (berr == nil) || (serr == nil && sb != basic) {
+			r.OracleFail("domain-prefix-basic-not-the-amp-algorithm", bl, breal, fmt.Sprintf("the basic algorithm of the AMP cache URL format gives %s (error %v)", c11Hex(sb), serr))
 		}
 		want := fb
 		if berr == nil && len(basic) <= 63 {
